@@ -9,7 +9,14 @@ open Phase4Simple
 
 /-! ### what scaling leaves alone -/
 
-theorem scaleG_edge (c : Rat) (g : G) (e : Nat) : (scaleG c g).edge e = g.edge e := rfl
+theorem scaleG_edge_full (c : Rat) (g : G) (e : Nat) :
+    (scaleG c g).edge e = { g.edge e with pts := (g.edge e).pts.map (scalePt c) } := by
+  simp only [scaleG, G.edge, Array.getD_eq_getD_getElem?, Array.getElem?_map]
+  cases g.edges[e]? with
+  | none => simp [default, instInhabitedEdge.default]
+  | some ed => rfl
+theorem scaleG_edge_src (c : Rat) (g : G) (e : Nat) : ((scaleG c g).edge e).src = (g.edge e).src := by rw [scaleG_edge_full]
+theorem scaleG_edge_dst (c : Rat) (g : G) (e : Nat) : ((scaleG c g).edge e).dst = (g.edge e).dst := by rw [scaleG_edge_full]
 theorem scaleG_nsize (c : Rat) (g : G) : (scaleG c g).nodes.size = g.nodes.size := by simp [scaleG]
 theorem scaleG_lsize (c : Rat) (g : G) : (scaleG c g).layers.size = g.layers.size := by simp [scaleG]
 
@@ -22,14 +29,16 @@ theorem scaleG_node_top (c : Rat) (g : G) (n : Nat) :
   | none => simp [default, instInhabitedNode.default]
   | some nd => simp
 
-theorem scaleG_other (c : Rat) (g : G) (e n : Nat) : (scaleG c g).other e n = g.other e n := rfl
-theorem scaleG_selfLoops (c : Rat) (g : G) (e : Nat) : (scaleG c g).selfLoops e = g.selfLoops e := rfl
+theorem scaleG_other (c : Rat) (g : G) (e n : Nat) : (scaleG c g).other e n = g.other e n := by
+  simp only [G.other, scaleG_edge_src, scaleG_edge_dst]
+theorem scaleG_selfLoops (c : Rat) (g : G) (e : Nat) : (scaleG c g).selfLoops e = g.selfLoops e := by
+  simp only [G.selfLoops, scaleG_edge_src, scaleG_edge_dst]
 theorem scaleG_layerOf (c : Rat) (g : G) (n : Nat) : (scaleG c g).layerOf n = g.layerOf n := by
   simp only [G.layerOf, (scaleG_node_top c g n).2.2.1]
 theorem scaleG_isFlat (c : Rat) (g : G) (e : Nat) : (scaleG c g).isFlat e = g.isFlat e := by
-  simp only [G.isFlat, scaleG_layerOf, scaleG_edge]
+  simp only [G.isFlat, scaleG_layerOf, scaleG_edge_src, scaleG_edge_dst]
 theorem scaleG_crossesE (c : Rat) (g : G) (e f : Nat) : crossesE (scaleG c g) e f = crossesE g e f := by
-  simp only [crossesE, scaleG_layerOf, scaleG_edge, (scaleG_node_top c g _).2.2.2.1]
+  simp only [crossesE, scaleG_layerOf, scaleG_edge_src, scaleG_edge_dst, (scaleG_node_top c g _).2.2.2.1]
 
 theorem scaleG_crossesE' (c : Rat) (g : G) (e : Nat) : crossesE (scaleG c g) e = crossesE g e :=
   funext (scaleG_crossesE c g e)
